@@ -211,7 +211,8 @@ AMENDS = {'C02': [('text', 'a rejection triggers a product search for a concrete
  'C04': [('text', "(nesting, ranges, late '+=', '&=', '-=')", '(nesting, ranges, late \'+=\', \'&=\', \'-=\'; glyph lists written as glyphid() or through the cmap as codepoint(\'c\'..\'f\'), codepoint("cdef"), unicode(a..b), U+xxxx..U+yyyy)'),
   ('text', 'U+xxxx..U+yyyy)', 'U+xxxx..U+yyyy; every fifth program compiled with -g and runs of code points the font lacks)')],
  'C03': [('text', 'never meets an unknown opcode or truncated operand and ends in a return,', 'never meets an unknown opcode or truncated operand and ends in a return (the executable checker additionally requires exactly one value on the stack at the return),'),
-  ('text', 'and requires libgraphite2 to load and shape with each font.', 'and requires libgraphite2 to load and shape with each font; hand-written programs add collision passes with complexFit glyphs (sub-box records), justification, line-break items, attachment from metrics.')],
+  ('text', 'and requires libgraphite2 to load and shape with each font.', 'and requires libgraphite2 to load and shape with each font; hand-written programs add collision passes with complexFit glyphs (sub-box records), justification, line-break items, attachment from metrics.'),
+  ('text', 'Proof: Grc.Code.check_sound', "Proof: Grc.Wr.binarySearchConstants_eq_searchConsts (the compiler's BinarySearchConstants loop, transcribed, yields for EVERY n the search header the decoders demand), Grc.Wr.beU16_write16 / beU32_write32 (the big-endian writers, transcribed, are read back by the decoders' readers as the value modulo the field width, for every value; T1: the text of these functions and of the WriteByte/Short/Int members is re-extracted on every run, WritersGen.*); Grc.Code.check_sound")],
  'C05': [('note', 'Not covered yet: m-unit scaling, glyph metrics/point()/box() in values,', "Scaled numbers (m / M suffix with a global MUnits) are generated and expected with the compiler's float arithmetic. Not covered yet: glyph metrics/point()/box() in values,"),
   ('text', '(overlapping classes, environments toggling AttributeOverride, boundary values)', '(overlapping classes, environments toggling AttributeOverride, boundary values; every sixth program on built-in collision.* / sequence.* attributes with a collision pass)')],
  'C10': [('text', 'Tie: 33 single-fault injections', 'Tie: 42 single-fault injections'),
@@ -231,7 +232,8 @@ AMENDS = {'C02': [('text', 'a rejection triggers a product search for a concrete
   ('text', 'over input fonts (Unicode- and symbol-encoded)', 'over input fonts (Unicode- and symbol-encoded, highest name id at 255 / 256 / 257)')],
  'C17': [('text', 'resolves every glyphid()/unicode()/U+/range/postscript() reference', 'resolves every glyphid()/unicode()/U+/codepoint(\'c\' | "str" | a..b)/range/postscript()/pseudo(glyph, codepoint) reference'),
   ('text', 'Proof: Grc.Cm.alloc_pseudo_range', "Proof: Grc.Cm.lookup31_eq_lookup / lookup310_eq_lookup (with the loop invariant bsearch_spec) - the compiler's own cmap searches (TtfUtil::Cmap31Lookup: binary search of the endCode array; Cmap310Lookup), transcribed statement by statement, return the format's definition for EVERY code point and every number of segments when the end codes ascend (hypothesis evaluated on each input font; T1: the text of the two functions and of GrcFont::GlyphFromCmap re-extracted on every run, CmapGen.*); Grc.Cm.alloc_pseudo_range"),
-  ('note', "cmap lookup is the format's linear-scan semantics (the compiler's binary search is validated against it, not proved).", "cmap lookup is the format's linear-scan semantics, to which the transcription of the compiler's searches is proved equal (the transcription is tied to the source by text equality, not by a translator).")],
+  ('note', "cmap lookup is the format's linear-scan semantics (the compiler's binary search is validated against it, not proved).", "cmap lookup is the format's linear-scan semantics, to which the transcription of the compiler's searches is proved equal (the transcription is tied to the source by text equality, not by a translator)."),
+  ('text', '; Grc.Cm.alloc_pseudo_range', '; Grc.Cm.mem_collisions_iff / collisions_nodup (the collision scan of GrcFont::ScanGlyfIds, transcribed with its per-glyph table, records exactly the mapped code points whose glyph another mapped code point has, each once - for every cmap that leaves U+0000 unmapped; hypothesis evaluated per font); Grc.Cm.alloc_pseudo_range')],
  'C18': [('text', '(include file, object-like and function-like macros', '(include files nested in subdirectories, #if / #elif / #else ladders, CR LF line endings, object-like and function-like macros'),
   ('text', '(7 cases incl. #error, stray #endif', '(14 cases incl. #error, fatal buffer overflows, stray #endif'),
   ('text', 'object-like and function-like macros', 'object-like and function-like macros (also called with line breaks between name, parenthesis and arguments)')],
